@@ -150,9 +150,9 @@ impl Ctx {
                 }
             }
         };
-        let mut choices: Vec<u8> = vec![0, 0, 0, 1, 1, 2, 3, 4, 5, 6];
+        let mut choices: Vec<u8> = vec![0, 0, 0, 1, 1, 2, 3, 4, 5, 6, 11, 11, 11, 12, 12, 13, 14];
         if kind != Kind::Boxed {
-            choices.extend_from_slice(&[7, 7, 7, 8, 8, 9, 9, 10, 10]);
+            choices.extend_from_slice(&[7, 7, 7, 8, 8, 9, 9, 10, 10, 15, 15]);
         }
         let c = *self.rng.pick(&choices);
         let mut oracle = Vec::new();
@@ -187,13 +187,55 @@ impl Ctx {
                 }
                 Op::ExtendClone(n)
             }
-            _ => {
+            10 => {
                 let n = self.rng.below(len as u64 + 5) as usize;
                 for _ in 0..n.saturating_sub(len + 1) {
                     let id = self.fresh();
                     oracle.push(Oc::Ret(id));
                 }
                 Op::Resize(n, self.fresh())
+            }
+            11 => {
+                // mostly valid ranges, sometimes reversed / past the end
+                let (s, e) = match self.rng.below(12) {
+                    0 => (len + 1, len + 1),
+                    1 => (0, len + 1),
+                    2 => (len.min(2), len.min(2).saturating_sub(1)),
+                    _ => {
+                        let a = self.rng.below(len as u64 + 1) as usize;
+                        let b = self.rng.below(len as u64 + 1) as usize;
+                        (a.min(b), a.max(b))
+                    }
+                };
+                let pulls = self.rng.below((e.saturating_sub(s)) as u64 + 2) as usize;
+                let script: Vec<u8> = (0..pulls).map(|_| if self.rng.chance(2, 3) { b'f' } else { b'b' }).collect();
+                let fin = if self.rng.chance(1, 3) { b'k' } else { b'd' };
+                Op::Drain(s, e, script, fin)
+            }
+            12 => {
+                for _ in 0..len {
+                    oracle.push(Oc::Ret(u64::from(self.rng.chance(1, 2))));
+                }
+                let calls = match self.rng.below(4) {
+                    0 => self.rng.below(len as u64 + 1) as usize,
+                    _ => len + 1,
+                };
+                Op::ExtractIf(calls)
+            }
+            13 => {
+                let pulls = self.rng.below(len as u64 + 2) as usize;
+                Op::IntoIter((0..pulls).map(|_| if self.rng.chance(2, 3) { b'f' } else { b'b' }).collect())
+            }
+            14 => {
+                for _ in 0..len {
+                    let id = self.fresh();
+                    oracle.push(Oc::Ret(id));
+                }
+                Op::MapInPlace
+            }
+            _ => {
+                let n = self.rng.below(5) as usize;
+                Op::Append((0..n).map(|_| self.fresh()).collect())
             }
         };
         let _ = cap;
@@ -210,8 +252,26 @@ impl Ctx {
     }
 
     /// runs all steps of a trace on one real vector
-    fn exec(&mut self, v: &mut dyn VecDyn, spec: &Spec) {
-        let h = "a";
+    fn exec<'a>(&mut self, v: DynVec<'a>, spec: &Spec) -> Option<DynVec<'a>> {
+        let mut cur: Option<DynVec<'a>> = Some(v);
+        self.announce(cur.as_ref().unwrap().as_ref(), "a", spec);
+        let nsteps = spec.script.as_ref().map_or(spec.nops, |s| s.len());
+        for si in 0..nsteps {
+            let Some(v) = cur.as_mut() else { break };
+            let step = match &spec.script {
+                Some(s) => s[si].clone(),
+                None => {
+                    let (pre, pre_cap) = (v.ids(), v.cap());
+                    self.gen_step(spec.kind, &pre, pre_cap)
+                }
+            };
+            self.do_step(&mut cur, "a", spec, step, spec.script.is_none());
+        }
+        cur
+    }
+
+    /// `new …` line + capacity promise of the constructor
+    fn announce(&mut self, v: &dyn VecDyn<'_>, h: &str, spec: &Spec) {
         let zst = spec.zst;
         *self.kind_hist.entry(format!("{}{}", spec.kind.tok(), if zst { "-zst" } else { "" })).or_insert(0) += 1;
         // ---- creation: capacity promise of `with_capacity_in` / exact length of a boxed slice
@@ -225,27 +285,50 @@ impl Ctx {
             self.oracle("C08", format!("{} created with capacity {} reports capacity {cap0}", spec.kind.tok(), spec.cap));
         }
         if !zst {
-            let _ = writeln!(self.out, "new {h} {} cap={} ids={}", spec.kind.tok(), cap0, csv(&v.ids()));
+            let _ = writeln!(
+                self.out,
+                "new {h} {} cap={} ids={} addr={} esize={} align={}",
+                spec.kind.tok(),
+                cap0,
+                csv(&v.ids()),
+                v.addr(),
+                std::mem::size_of::<E>(),
+                std::mem::align_of::<E>()
+            );
         }
         let _ = take_created();
         let _ = take_log();
-        let nsteps = spec.script.as_ref().map_or(spec.nops, |s| s.len());
-        for si in 0..nsteps {
+    }
+
+    /// one operation on the vector `cur` (handle `h`): run, observe, log, evaluate the oracles
+    fn do_step<'a>(&mut self, cur: &mut Option<DynVec<'a>>, h: &str, spec: &Spec, step: Step, allow_variants: bool) {
+        let zst = spec.zst;
+        {
+            let Some(v) = cur.as_mut() else { return };
             let pre = v.ids();
             let pre_len = v.len();
             let pre_cap = v.cap();
             let pre_addr = v.addr();
-            let step = match &spec.script {
-                Some(s) => s[si].clone(),
-                None => self.gen_step(spec.kind, &pre, pre_cap),
-            };
+            let step_op = step.op.clone();
             let stash_before = stash_len();
             let zc_before = zcounts();
             set_oracle(&step.oracle, &step.bombs);
             if zst && !step.bombs.is_empty() {
                 set_zbomb(Some(step.bombs[0] % 3));
             }
-            let r = catch_unwind(AssertUnwindSafe(|| v.apply(&step.op)));
+            let consuming = step.op.consumes();
+            let r = if consuming {
+                let owned = cur.take().unwrap();
+                match catch_unwind(AssertUnwindSafe(move || owned.consume(&step_op))) {
+                    Ok((text, next)) => {
+                        *cur = next;
+                        Ok(text)
+                    }
+                    Err(p) => Err(p),
+                }
+            } else {
+                catch_unwind(AssertUnwindSafe(|| v.apply(&step.op)))
+            };
             let used_n = used();
             clear_oracle();
             let exit = match &r {
@@ -256,9 +339,11 @@ impl Ctx {
             };
             *self.op_hist.entry(step.op.name().to_string()).or_insert(0) += 1;
             *self.exit_hist.entry(exit.split(':').next().unwrap().to_string() + if exit == "panic:drop" { ":drop" } else { "" }).or_insert(0) += 1;
-            let post = v.ids();
-            let post_len = v.len();
-            let post_cap = v.cap();
+            let gone = cur.is_none();
+            let (post, post_len, post_cap, post_addr) = match cur.as_ref() {
+                Some(v) => (v.ids(), v.len(), v.cap(), v.addr()),
+                None => (Vec::new(), 0, 0, 0),
+            };
             let drops = take_log();
             let created = take_created();
             let esc: Vec<u64> = stash_ids()[stash_before.min(stash_len())..].to_vec();
@@ -270,7 +355,9 @@ impl Ctx {
                 csv(&step.bombs),
                 if post_cap == usize::MAX { 0 } else { post_cap }
             );
-            if !zst {
+            if !zst && gone {
+                let _ = writeln!(self.out, "{optext} => gone drops={} esc={} exit={} used={}", csv(&drops), csv(&esc), exit, used_n);
+            } else if !zst {
                 let _ = writeln!(
                     self.out,
                     "{optext} => ids={} len={} cap={} drops={} esc={} exit={} used={}",
@@ -333,6 +420,9 @@ impl Ctx {
             }
             // ---------------- C08: same behaviour as std::vec::Vec, capacity promises
             self.oracle_checks += 1;
+            if gone {
+                // the vector was consumed: only the accounting above applies; std comparison of the yields below
+            }
             if post_len > post_cap {
                 self.oracle("C08", format!("{} `{optext}`: len {post_len} > capacity {post_cap}", spec.kind.tok()));
             }
@@ -341,20 +431,20 @@ impl Ctx {
             match spec.kind {
                 Kind::Boxed => {}
                 Kind::Fixed => {
-                    if !zst && post_cap != pre_cap {
+                    if !zst && !gone && post_cap != pre_cap {
                         self.oracle("C08", format!("fixed `{optext}`: capacity changed from {pre_cap} to {post_cap}"));
                     }
-                    if !zst && v.addr() != pre_addr && pre_cap != 0 {
+                    if !zst && !gone && post_addr != pre_addr && pre_cap != 0 {
                         self.oracle("C08", format!("fixed `{optext}`: the buffer moved"));
                     }
                 }
                 Kind::Bump | Kind::Mut => {
-                    if fits && !zst && (post_cap != pre_cap || (v.addr() != pre_addr && pre_cap != 0)) {
-                        self.oracle("C08", format!("{} `{optext}`: reallocated although len {pre_len} + {additional} <= capacity {pre_cap} (capacity {pre_cap} -> {post_cap}, address {pre_addr:#x} -> {:#x})", spec.kind.tok(), v.addr()));
+                    if fits && !zst && !gone && !consuming && (post_cap != pre_cap || (post_addr != pre_addr && pre_cap != 0)) {
+                        self.oracle("C08", format!("{} `{optext}`: reallocated although len {pre_len} + {additional} <= capacity {pre_cap} (capacity {pre_cap} -> {post_cap}, address {pre_addr:#x} -> {:#x})", spec.kind.tok(), post_addr));
                     }
                 }
             }
-            if zst && spec.kind != Kind::Boxed && post_cap != usize::MAX {
+            if zst && !gone && spec.kind != Kind::Boxed && post_cap != usize::MAX {
                 self.oracle("C08", format!("{} of a zero-sized type `{optext}`: capacity {post_cap}, expected usize::MAX", spec.kind.tok()));
             }
             let clean = !step.oracle.contains(&Oc::Panic) && step.bombs.is_empty();
@@ -371,7 +461,7 @@ impl Ctx {
                             self.oracle("C08", format!("{} `{optext}`: the rejected call changed the contents {} -> {}", spec.kind.tok(), csv(&pre), csv(&post)));
                         }
                     }
-                    Ok(_) if fixed_full => {
+                    Ok((_, _)) if fixed_full => {
                         self.count("fixed-full");
                         if exit != "panic" {
                             self.oracle("C08", format!("fixed `{optext}` from len={pre_len} cap={pre_cap}: needs {additional} more slots than the fixed capacity has, but ended with {exit}"));
@@ -379,7 +469,7 @@ impl Ctx {
                             self.oracle("C08", format!("fixed `{optext}`: the refused call changed the contents {} -> {}", csv(&pre), csv(&post)));
                         }
                     }
-                    Ok(ret) => {
+                    Ok((ret, consumed)) => {
                         let want_exit = if ret.is_empty() { "ret".to_string() } else { format!("ret:{ret}") };
                         if zst {
                             if exit.starts_with("panic") || post_len != sv.len() {
@@ -388,13 +478,13 @@ impl Ctx {
                         } else if exit != want_exit || post != sv {
                             self.oracle("C08", format!("{} `{optext}` from ids={}: std::vec::Vec gives ids={} {want_exit}, the implementation ids={} {exit}", spec.kind.tok(), csv(&pre), csv(&sv), csv(&post)));
                         }
-                        if used_n != step.oracle.len() {
-                            self.oracle("C08", format!("{} `{optext}`: {} callback invocations, std::vec::Vec makes {}", spec.kind.tok(), used_n, step.oracle.len()));
+                        if used_n != consumed {
+                            self.oracle("C08", format!("{} `{optext}`: {} callback invocations, std::vec::Vec makes {}", spec.kind.tok(), used_n, consumed));
                         }
                     }
                 }
                 // ---- variants: the same operation from the same state with a panic at every callback index
-                if spec.script.is_none() && !zst {
+                if allow_variants && !zst {
                     let mut ks: Vec<usize> = (0..step.oracle.len()).collect();
                     while ks.len() > self.max_variants_per_step {
                         let i = self.rng.below(ks.len() as u64) as usize;
@@ -438,7 +528,7 @@ impl Ctx {
     }
 
     /// the owner goes away: everything it still holds is dropped exactly once
-    fn finish(&mut self, spec: &Spec, owned: Vec<u64>, owned_len: usize, dropped: Result<(), Box<dyn std::any::Any + Send>>, zc_before: (u64, u64, u64)) {
+    fn finish(&mut self, spec: &Spec, had: bool, owned: Vec<u64>, owned_len: usize, dropped: Result<(), Box<dyn std::any::Any + Send>>, zc_before: (u64, u64, u64)) {
         let drops = take_log();
         let exit = match dropped {
             Ok(()) => "ret",
@@ -453,7 +543,9 @@ impl Ctx {
                 self.oracle("C06", format!("zst {}: dropping the owner of {owned_len} values ran {n} destructors", spec.kind.tok()));
             }
         } else {
-            let _ = writeln!(self.out, "drop a => drops={} exit={exit}", csv(&drops));
+            if had {
+                let _ = writeln!(self.out, "drop a => drops={} exit={exit}", csv(&drops));
+            }
             if drops != owned {
                 self.oracle("C06", format!("{}: dropping the owner of ids={} dropped {}", spec.kind.tok(), csv(&owned), csv(&drops)));
             }
@@ -477,51 +569,42 @@ macro_rules! run_with_settings {
     ($fname:ident, $S:ty) => {
         fn $fname<T: Elem>(ctx: &mut Ctx, spec: &Spec) {
             let mut bump: Bump<Global, $S> = Bump::new();
-            let zc = zcounts();
-            match spec.kind {
+            let v: DynVec = match spec.kind {
                 Kind::Boxed => {
-                    let mut v: BumpBox<[T]> = bump.alloc_iter_exact(spec.ids.iter().map(|i| T::make(*i)));
-                    ctx.exec(&mut v, spec);
-                    let (owned, n) = (v.ids(), VecDyn::len(&v));
-                    let zc = zcounts();
-                    let r = catch_unwind(AssertUnwindSafe(move || drop(v)));
-                    ctx.finish(spec, owned, n, r, zc);
+                    let v: BumpBox<[T]> = bump.alloc_iter_exact(spec.ids.iter().map(|i| T::make(*i)));
+                    Box::new(v)
                 }
                 Kind::Fixed => {
                     let mut v: FixedBumpVec<T> = FixedBumpVec::with_capacity_in(spec.cap, &bump);
                     for i in &spec.ids {
                         v.push(T::make(*i));
                     }
-                    ctx.exec(&mut v, spec);
-                    let (owned, n) = (v.ids(), VecDyn::len(&v));
-                    let zc = zcounts();
-                    let r = catch_unwind(AssertUnwindSafe(move || drop(v)));
-                    ctx.finish(spec, owned, n, r, zc);
+                    Box::new(v)
                 }
                 Kind::Bump => {
                     let mut v: BumpVec<T, &Bump<Global, $S>> = BumpVec::with_capacity_in(spec.cap, &bump);
                     for i in &spec.ids {
                         v.push(T::make(*i));
                     }
-                    ctx.exec(&mut v, spec);
-                    let (owned, n) = (v.ids(), VecDyn::len(&v));
-                    let zc = zcounts();
-                    let r = catch_unwind(AssertUnwindSafe(move || drop(v)));
-                    ctx.finish(spec, owned, n, r, zc);
+                    Box::new(v)
                 }
                 Kind::Mut => {
                     let mut v: MutBumpVec<T, &mut Bump<Global, $S>> = MutBumpVec::with_capacity_in(spec.cap, &mut bump);
                     for i in &spec.ids {
                         v.push(T::make(*i));
                     }
-                    ctx.exec(&mut v, spec);
-                    let (owned, n) = (v.ids(), VecDyn::len(&v));
-                    let zc = zcounts();
-                    let r = catch_unwind(AssertUnwindSafe(move || drop(v)));
-                    ctx.finish(spec, owned, n, r, zc);
+                    Box::new(v)
                 }
-            }
-            let _ = zc;
+            };
+            let left = ctx.exec(v, spec);
+            let (owned, n) = match &left {
+                Some(v) => (v.ids(), v.len()),
+                None => (Vec::new(), 0),
+            };
+            let zc = zcounts();
+            let had = left.is_some();
+            let r = catch_unwind(AssertUnwindSafe(move || drop(left)));
+            ctx.finish(spec, had, owned, n, r, zc);
         }
     };
 }
